@@ -22,6 +22,8 @@ type defaultVarMocker struct {
 	mockValue   interface{}
 	originValue interface{}
 	canceled    bool // canceled 是否被取消
+	// originSaved 是否已经保存了首次 mock 之前的原值
+	originSaved bool
 }
 
 // String mock 的名称或描述, 方便调试和问题排查
@@ -63,6 +65,17 @@ func (m *defaultVarMocker) Apply(callback interface{}) {
 
 // Cancel 取消 mock
 func (m *defaultVarMocker) Cancel() {
+	if !m.originSaved {
+		// 从未 Set/Apply 过, 无需还原
+		m.canceled = true
+		return
+	}
+	if m.originValue == nil {
+		// 原值为 nil 接口, reflect.ValueOf(nil) 无法用于 Set
+		m.targetValue.Elem().Set(reflect.Zero(m.targetValue.Elem().Type()))
+		m.canceled = true
+		return
+	}
 	m.targetValue.Elem().Set(reflect.ValueOf(m.originValue))
 	m.canceled = true
 }
@@ -80,6 +93,13 @@ func (m *defaultVarMocker) Set(value interface{}) {
 }
 
 func (m *defaultVarMocker) doSet(value interface{}) {
+	if m.originSaved {
+		// 只在首次 mock 时保存原值, 多次 Set/Apply 不覆盖
+		m.targetValue.Elem().Set(reflect.ValueOf(value))
+		m.mockValue = value
+		return
+	}
+	m.originSaved = true
 	m.originValue = m.targetValue.Elem().Interface()
 	d := reflect.ValueOf(value)
 	m.targetValue.Elem().Set(d)
